@@ -349,6 +349,10 @@ type PreparedStatementFieldTracker struct {
 	// shared value that indicates number of param packet
 	paramsCounter int
 	columnsNum    uint16
+	// A client with CLIENT_DEPRECATE_EOF gets the parameter and the column definitions WITHOUT the EOF packets
+	// that close the two blocks: the definitions have to be counted.
+	paramsNum      uint16
+	columnsCounter int
 }
 
 // NewPreparedStatementFieldTracker create new PreparedStatementFieldTracker
@@ -405,6 +409,19 @@ func (p *PreparedStatementFieldTracker) ParamsTrackHandler(ctx context.Context, 
 		}
 	}
 
+	// CLIENT_DEPRECATE_EOF: no EOF packet follows the last parameter definition. Waiting for it left this handler
+	// installed after the answer was complete: it took the column definitions for parameters and failed on the
+	// answer to the next command that does not install a handler of its own (COM_PING, COM_INIT_DB, ...: an OK
+	// packet is not a column definition), which closed the connection. Like everywhere, the next handler is chosen
+	// before the packet is written to the client.
+	if p.proxyHandler.Capabilities.IsClientDeprecateEOF() && p.paramsCounter+1 >= int(p.paramsNum) {
+		if p.columnsNum > 0 {
+			p.proxyHandler.setQueryHandler(p.ColumnsTrackHandler)
+		} else {
+			p.proxyHandler.setQueryHandler(p.proxyHandler.QueryResponseHandler)
+		}
+	}
+
 	if _, err := clientConnection.Write(field.Dump()); err != nil {
 		p.proxyHandler.logger.WithError(err).WithField(logging.FieldKeyEventCode, logging.EventCodeErrorNetworkWrite).
 			Debugln("Can't proxy output")
@@ -446,6 +463,12 @@ func (p *PreparedStatementFieldTracker) ColumnsTrackHandler(ctx context.Context,
 	updateFieldEncodedType(field, p.proxyHandler.setting.TableSchemaStore())
 
 	p.proxyHandler.protocolState.AddColumnDescription(field)
+
+	// CLIENT_DEPRECATE_EOF: the last column definition ends the answer (see ParamsTrackHandler)
+	p.columnsCounter++
+	if p.proxyHandler.Capabilities.IsClientDeprecateEOF() && p.columnsCounter >= int(p.columnsNum) {
+		p.proxyHandler.setQueryHandler(p.proxyHandler.QueryResponseHandler)
+	}
 
 	if _, err := clientConnection.Write(field.Dump()); err != nil {
 		p.proxyHandler.logger.WithError(err).WithField(logging.FieldKeyEventCode, logging.EventCodeErrorNetworkWrite).
